@@ -15,6 +15,8 @@ use std::task::{RawWaker, RawWakerVTable, Waker};
 /// argument of core's `atomic_load::<T, false>` — so separate scalar statics are unsafe to write.)
 pub(crate) struct Env {
     pub magic: u64,
+    /// first element of the fd array a REGISTER_FILES_UPDATE points to
+    pub reg_fds0: i32,
     /// != 0: `Shared::wake_blocked_futures` is replaced by its frame contract (counts the call, touches nothing);
     /// the function itself is proved by the c03.blocked.* obligations
     pub wbf_skip: u32,
@@ -72,6 +74,7 @@ pub(crate) struct Env {
 }
 pub(crate) static mut E: Env = Env {
     magic: 0xA10A_10A1_5EED_F00D,
+    reg_fds0: 0,
     wbf_skip: 0,
     wbf_calls: 0,
     setup_in: [0; 30],
@@ -327,6 +330,11 @@ pub(crate) unsafe fn sys_register(fd: i32, opcode: u32, arg: *const libc::c_void
                 if n > 5 { words[5] = src.add(5).read_unaligned(); }
                 if n > 6 { words[6] = src.add(6).read_unaligned(); }
                 if n > 7 { words[7] = src.add(7).read_unaligned(); }
+            }
+            if opcode == 6 /* IORING_REGISTER_FILES_UPDATE */ && !arg.is_null() {
+                // struct io_uring_files_update { u32 offset; u32 resv; u64 fds; }
+                let fds = (arg as *const u64).add(1).read_unaligned() as usize as *const i32;
+                E.reg_fds0 = fds.read();
             }
             E.regs[i] = RegisterCall { fd, opcode, arg: arg as usize, nr_args, words };
             if E.reg_ret[i] == -1 {
